@@ -723,3 +723,51 @@ TRUSTED_BASE = ['modelled (not verified) code: pybtex/backends/{__init__,html,la
 ASSUMPTIONS = ['enc_keeps_braces / table shape hypotheses: discharged per run for the measured tables (generated obligations)',
                'the rich-text tree given to the model is the real object tree dumped after construction (the smart constructor itself is C08)']
 PARTIAL = []
+
+# ----------------------------------------------------------------------------------------
+# per-run table obligations (DESIGN.md 2.3): the tables are regenerated from the code / measured
+# from latexcodec and the shape hypotheses of the theorems are proved for them by vm_compute
+def _cl(s):
+    return '[' + '; '.join(str(ord(c)) for c in s) + ']'
+
+def generated_obligations(ck):
+    head = ('From Pybtex Require Import Base.Prelude Base.PyChar Base.PyStr Model.RtTypes Model.Backends '
+            'Proofs.Backends Proofs.BackendsMd Proofs.BackendsHtml Proofs.BackendsLatex.\nLocal Open Scope N_scope.\n')
+    obs = []
+    def run(name, what, body):
+        try:
+            src = head + body()
+        except Exception as e:
+            return {'name': name, 'what': what, 'ok': False, 'log': 'could not translate the table: %r' % (e,)}
+        path = os.path.join(ck.rundir, 'C09_%s.v' % name)
+        open(path, 'w').write(src)
+        rc, log = coqc_file(path, ck.rundir)
+        return {'name': name, 'what': what, 'ok': rc == 0, 'log': log}
+    def special():
+        from pybtex.backends import markdown
+        sc = list(markdown.SPECIAL_CHARS)
+        if not all(isinstance(c, str) and len(c) == 1 for c in sc):
+            raise ValueError('SPECIAL_CHARS is not a list of single characters: %r' % (sc,))
+        return ('Definition SPECIAL_CHARS : list char := %s.\n'
+                'Lemma special_chars_exact : md_table_shape SPECIAL_CHARS = true /\\ same_set SPECIAL_CHARS markdown_escapable = true.\n'
+                'Proof. vm_compute. split; reflexivity. Qed.\n' % _cl(''.join(sc)))
+    def tabs(b):
+        sym, tags, _ = backend_tables(b)
+        s = '[' + '; '.join('(%s, %s)' % (_cl(S(k)), _cl(S(v))) for k, v in sym) + ']'
+        t = '[' + '; '.join('(%s, %s)' % (_cl(S(k)), ('Some ' + _cl(S(v[0]))) if v else 'None') for k, v in tags) + ']'
+        return 'Definition TAB : tables := mkTables %s %s markdown_escapable.\n' % (s, t)
+    def html():
+        return tabs(0) + 'Lemma html_symbols_are_entities_or_text : html_symbols_ok TAB = true.\nProof. vm_compute. reflexivity. Qed.\n'
+    def latex():
+        return tabs(1) + 'Lemma latex_tables_shape : latex_tables_ok TAB = true.\nProof. vm_compute. reflexivity. Qed.\n'
+    def enc():
+        chars = [chr(c) for c in range(128)] + list(WS + UNI)
+        ent = [enc_entry(c) for c in chars]
+        e = '[' + '; '.join('(%d, (%s, %s))' % (c, _cl(S(x)), 'true' if cw else 'false') for c, x, cw in ent) + ']'
+        return ('Definition ENC : enc_table := %s.\n'
+                'Lemma latexcodec_keeps_braces : enc_table_ok ENC = true.\nProof. vm_compute. reflexivity. Qed.\n' % e)
+    obs.append(run('special_chars_exact', 'markdown.SPECIAL_CHARS (regenerated) has the backslash first, no duplicates, and is exactly the Markdown syntax document\'s set', special))
+    obs.append(run('html_symbols', 'html Backend.symbols (regenerated): every value is an entity or plain text', html))
+    obs.append(run('latex_tables', 'latex Backend.symbols are brace-balanced and Backend.tags contain no brace (regenerated)', latex))
+    obs.append(run('latexcodec_keeps_braces', 'latexcodec\'s translation of every ASCII character (+ samples), measured, keeps the brace skeleton', enc))
+    return obs
